@@ -125,6 +125,12 @@ Proof. unfold rgetv. intros E. apply parseResV_ok in E. unfold pres. rewrite E. 
 Lemma r_sound v x lim : below v x -> rbad v lim = false -> wf lim -> within x lim = true.
 Proof. intros Hb Hbad Hw. apply negb_false_iff in Hbad. eapply within_of_below; eauto. Qed.
 
+Lemma checkLimitResource_eq' q (par : lmap * lmap) :
+  checkLimitResource q (fst par) (snd par) =
+  (cur <- foldV (limitResLimit (fst par) (snd par)) (q_limits q) par ;;
+   each (fun c => checkLimitResource c (fst cur) (snd cur)) (q_queues q)).
+Proof. destruct par as [a b]. apply checkLimitResource_eq. Qed.
+
 Section ResInstance.
 Variable sel : limit -> list str.
 Variable dim : lmap * lmap -> lmap.
@@ -147,7 +153,7 @@ Proof.
            r_sound
            (lmap * lmap) (fun q par => checkLimitResource q (fst par) (snd par))
            (fun ls par => foldV (limitResLimit (fst par) (snd par)) ls par) dim
-           (fun q par => checkLimitResource_eq q (fst par) (snd par)) level_dim
+           checkLimitResource_eq' level_dim
            root [] ([], [])); [exact E | | apply uniq_tree; assumption].
   rewrite Hd. split; [intros a u l' [] | intros u v Ev; discriminate].
 Qed.
@@ -216,3 +222,164 @@ Proof.
   - exact (wild_to_wf groups _ _ (proj2 HG)).
 Qed.
 End WithCompiles.
+
+(* ---- instance: max applications ---- *)
+Definition abad (v lim : N) : bool := negb (N.eqb v 0) && (N.ltb v lim || N.eqb lim 0).
+Definition agetv (l : limit) : vres N := VOk (l_maxapps l).
+Definition ale (v x : N) : Prop := x = 0%N \/ (v <> 0%N /\ (v <= x)%N).
+Definition aC (x lim : N) : bool := N.eqb x 0 || (negb (N.eqb lim 0) && N.leb lim x).
+Definition amerge (lim ex : N) : N := lim.
+
+Lemma abad_false v lim : abad v lim = false -> v = 0%N \/ ((lim <= v)%N /\ lim <> 0%N).
+Proof.
+  unfold abad. destruct (N.eqb v 0) eqn:E0; cbn [negb andb]; [left; apply N.eqb_eq; assumption|].
+  intros E. right. apply orb_false_iff in E. destruct E as [E1 E2]. apply N.ltb_ge in E1. apply N.eqb_neq in E2. auto.
+Qed.
+Lemma a_refl x : True -> ale x x.
+Proof. intros _. unfold ale. destruct (N.eq_dec x 0); [left; assumption | right; split; [assumption | lia]]. Qed.
+Lemma a_merge_r lim ex x : True -> True -> ale ex x -> abad ex lim = false -> ale (amerge lim ex) x.
+Proof.
+  intros _ _ [Hx|[Hn Hle]] Hb; [left; assumption|]. apply abad_false in Hb. destruct Hb as [Hb|[Hb1 Hb2]]; [contradiction|].
+  right. unfold amerge. split; [assumption | lia].
+Qed.
+Lemma a_sound v x lim : ale v x -> abad v lim = false -> True -> aC x lim = true.
+Proof.
+  intros [Hx|[Hn Hle]] Hb _; unfold aC.
+  - subst. reflexivity.
+  - apply abad_false in Hb. destruct Hb as [Hb|[Hb1 Hb2]]; [contradiction|].
+    apply orb_true_iff. right. apply andb_true_iff. split; [apply negb_true_iff; apply N.eqb_neq; assumption | apply N.leb_le; lia].
+Qed.
+
+Lemma limitAppsName_is par lim cur name :
+  limitAppsName par lim cur name = limName N abad amerge ELimAppsNamed ELimAppsWild par lim cur name.
+Proof. reflexivity. Qed.
+
+Lemma apps_level_dim_u ls : forall parU parG cur cur',
+  foldV (limitAppsLimit parU parG) ls cur = VOk cur' ->
+  foldV (dimStep N abad amerge ELimAppsNamed ELimAppsWild agetv users parU) ls (fst cur) = VOk (fst cur').
+Proof.
+  induction ls as [|l t IH]; intros parU parG cur cur' E; cbn [foldV] in *.
+  - inversion E; reflexivity.
+  - apply bind_ok in E. destruct E as (c1 & E1 & E). unfold limitAppsLimit in E1.
+    apply bind_ok in E1. destruct E1 as (cu & Eu & E1).
+    apply bind_ok in E1. destruct E1 as (cg & Eg & E1). inversion E1; subst c1.
+    unfold dimStep at 1. unfold agetv. cbn [bind].
+    assert (X : foldV (limName N abad amerge ELimAppsNamed ELimAppsWild parU (l_maxapps l)) (users l) (fst cur) = VOk cu) by exact Eu.
+    rewrite X. cbn [bind]. exact (IH _ _ _ _ E).
+Qed.
+Lemma apps_level_dim_g ls : forall parU parG cur cur',
+  foldV (limitAppsLimit parU parG) ls cur = VOk cur' ->
+  foldV (dimStep N abad amerge ELimAppsNamed ELimAppsWild agetv groups parG) ls (snd cur) = VOk (snd cur').
+Proof.
+  induction ls as [|l t IH]; intros parU parG cur cur' E; cbn [foldV] in *.
+  - inversion E; reflexivity.
+  - apply bind_ok in E. destruct E as (c1 & E1 & E). unfold limitAppsLimit in E1.
+    apply bind_ok in E1. destruct E1 as (cu & Eu & E1).
+    apply bind_ok in E1. destruct E1 as (cg & Eg & E1). inversion E1; subst c1.
+    unfold dimStep at 1. unfold agetv. cbn [bind].
+    assert (X : foldV (limName N abad amerge ELimAppsNamed ELimAppsWild parG (l_maxapps l)) (groups l) (snd cur) = VOk cg) by exact Eg.
+    rewrite X. cbn [bind]. exact (IH _ _ _ _ E).
+Qed.
+Lemma checkLimitMaxApplications_eq' q (par : amap * amap) :
+  checkLimitMaxApplications q (fst par) (snd par) =
+  (cur <- foldV (limitAppsLimit (fst par) (snd par)) (q_limits q) par ;;
+   each (fun c => checkLimitMaxApplications c (fst cur) (snd cur)) (q_queues q)).
+Proof. destruct par as [a b]. apply checkLimitMaxApplications_eq. Qed.
+
+Section AppsInstance.
+Variable sel : limit -> list str.
+Variable dim : amap * amap -> amap.
+Hypothesis level_dim : forall ls par cur,
+  foldV (limitAppsLimit (fst par) (snd par)) ls par = VOk cur ->
+  foldV (dimStep N abad amerge ELimAppsNamed ELimAppsWild agetv sel (dim par)) ls (dim par) = VOk (dim cur).
+Hypothesis Huniq : forall x, QueuesOk x -> NoDup (flat_map sel (q_limits x)).
+
+Lemma apps_chain root :
+  QueuesOk root -> checkLimitMaxApplications root [] [] = VOk tt -> dim ([], []) = [] ->
+  forallb (fun aq => namedP N agetv sel aC (fst aq) (snd aq) && wildP N agetv sel aC (fst aq) (snd aq))
+          (walk [] root) = true.
+Proof.
+  intros Hq E Hd.
+  apply (chain_tree N abad amerge ELimAppsNamed ELimAppsWild agetv sel (fun _ => True) ale aC
+           (fun _ _ _ => I) a_refl
+           (fun lim ex _ _ => a_refl lim I)
+           a_merge_r
+           (fun _ _ _ _ => I)
+           a_sound
+           (amap * amap) (fun q par => checkLimitMaxApplications q (fst par) (snd par))
+           (fun ls par => foldV (limitAppsLimit (fst par) (snd par)) ls par) dim
+           checkLimitMaxApplications_eq' level_dim
+           root [] ([], [])); [exact E | | apply uniq_tree; assumption].
+  rewrite Hd. split; [intros a u l' [] | intros u v Ev; discriminate].
+Qed.
+End AppsInstance.
+
+Lemma anamed_to_wf (sel : limit -> list str) anc q :
+  namedP N agetv sel aC anc q = true ->
+  forallb (fun l => forallb (fun u => forallb (fun a => match namedLimit sel a u with Some l' => apps_le l' l | None => true end) anc) (sel l)) (q_limits q) = true.
+Proof. intros H. exact H. Qed.
+Lemma awild_to_wf (sel : limit -> list str) anc q :
+  wildP N agetv sel aC anc q = true ->
+  forallb (fun l => forallb (fun u => str_eqb u s_star || existsb (fun a => is_some (namedLimit sel a u)) anc ||
+                                      forallb (fun a => match namedLimit sel a s_star with Some l' => apps_le l' l | None => true end) anc) (sel l)) (q_limits q) = true.
+Proof. intros H. exact H. Qed.
+
+Section WithCompiles2.
+Variable compiles : str -> bool.
+
+Theorem sound_limit_named_apps p p' root : PartOk compiles p p' root -> wf_limit_named_apps root = true.
+Proof.
+  intros H. pose proof (po_queues _ _ _ _ H) as Hq. pose proof (po_limapps _ _ _ _ H) as E.
+  pose proof (apps_chain users fst (fun ls par cur => apps_level_dim_u ls (fst par) (snd par) par cur)
+                (fun x Hx => proj1 (QueuesOk_uniq x Hx)) root Hq E eq_refl) as HU.
+  pose proof (apps_chain groups snd (fun ls par cur => apps_level_dim_g ls (fst par) (snd par) par cur)
+                (fun x Hx => proj2 (QueuesOk_uniq x Hx)) root Hq E eq_refl) as HG.
+  unfold wf_limit_named_apps, limits_vs_ancestors, allq. apply forallb_forall. intros aq Haq.
+  rewrite forallb_forall in HU, HG. specialize (HU aq Haq). specialize (HG aq Haq).
+  apply andb_true_iff in HU, HG. rewrite forallb_and. apply andb_true_iff. split.
+  - exact (anamed_to_wf users _ _ (proj1 HU)).
+  - exact (anamed_to_wf groups _ _ (proj1 HG)).
+Qed.
+Theorem sound_limit_wild_apps p p' root : PartOk compiles p p' root -> wf_limit_wild_apps root = true.
+Proof.
+  intros H. pose proof (po_queues _ _ _ _ H) as Hq. pose proof (po_limapps _ _ _ _ H) as E.
+  pose proof (apps_chain users fst (fun ls par cur => apps_level_dim_u ls (fst par) (snd par) par cur)
+                (fun x Hx => proj1 (QueuesOk_uniq x Hx)) root Hq E eq_refl) as HU.
+  pose proof (apps_chain groups snd (fun ls par cur => apps_level_dim_g ls (fst par) (snd par) par cur)
+                (fun x Hx => proj2 (QueuesOk_uniq x Hx)) root Hq E eq_refl) as HG.
+  unfold wf_limit_wild_apps, limits_vs_wildcards, allq. apply forallb_forall. intros aq Haq.
+  rewrite forallb_forall in HU, HG. specialize (HU aq Haq). specialize (HG aq Haq).
+  apply andb_true_iff in HU, HG. rewrite forallb_and. apply andb_true_iff. split.
+  - exact (awild_to_wf users _ _ (proj2 HU)).
+  - exact (awild_to_wf groups _ _ (proj2 HG)).
+Qed.
+End WithCompiles2.
+
+(* ---- the strict reading (limit that applies on EVERY ancestor: named, else wildcard) is refuted ---- *)
+From Coq Require String.
+Import String.StringSyntax.
+Local Open Scope string_scope.
+Local Open Scope list_scope.
+Definition lim_apps (name : str) (us : list str) (n : N) : limit := mkLimit name (Some us) None None n.
+Definition lim_res (name : str) (us : list str) (m : rmap) : limit := mkLimit name (Some us) None (Some m) 0.
+Definition qleaf (n : str) (ls : list limit) : queue := Queue n false None None 0 [] [] [] emptyTemplate [] ls.
+Definition qpar (n : str) (ls : list limit) (qs : list queue) : queue := Queue n true None None 0 [] [] [] emptyTemplate qs ls.
+Definition part_of (root : queue) : partition := mkPartition s_default (Some [root]) [] [] [] [].
+
+(* root: u1 -> 5 applications;  root.b: * -> 3;  root.b.c: u1 -> 4   (4 > 3, the wildcard of root.b applies to u1 there) *)
+Definition wit_apps : sconfig :=
+  [part_of (qpar s_root [lim_apps (sb "a") [sb "u1"] 5]
+              [qpar (sb "b") [lim_apps (sb "w") [s_star] 3]
+                 [qleaf (sb "c") [lim_apps (sb "c") [sb "u1"] 4]]])].
+(* root: * -> {memory(1): 5};  root.b: u1 -> {vcore(0): 3};  root.b.c: u1 -> {memory: 7} *)
+Definition wit_res : sconfig :=
+  [part_of (qpar s_root [lim_res (sb "w") [s_star] [(1%N, sb "5")]]
+              [qpar (sb "b") [lim_res (sb "u") [sb "u1"] [(0%N, sb "3")]]
+                 [qleaf (sb "c") [lim_res (sb "c") [sb "u1"] [(1%N, sb "7")]]]])].
+
+Theorem sound_limit_anc_apps_refuted :
+  exists c c', Validate (fun _ => false) c = VOk c' /\ existsb (fun p => negb (wf_limit_anc_apps (rootq p))) c' = true.
+Proof. exists wit_apps. eexists. split; [vm_compute; reflexivity | vm_compute; reflexivity]. Qed.
+Theorem sound_limit_anc_res_refuted :
+  exists c c', Validate (fun _ => false) c = VOk c' /\ existsb (fun p => negb (wf_limit_anc_res (rootq p))) c' = true.
+Proof. exists wit_res. eexists. split; [vm_compute; reflexivity | vm_compute; reflexivity]. Qed.
